@@ -130,6 +130,7 @@ def build_kwargs(workload, data):
 
     kw = {}
     for k, v in workload.get("kwargs", {}).items():
+        v = copy.deepcopy(v)  # the workload record is the harness's own: the code under test gets fresh objects
         if isinstance(v, dict) and "__ones__" in v:
             v = np.ones(data.get_num_points(masked=False), dtype=float)
         elif isinstance(v, dict) and "__boxcar__" in v:
